@@ -900,6 +900,9 @@ def _mask(sig, num_args, hide_args, hide_kwargs,
         = sort_params(sig, sources=True, _stacklevel=_stacklevel + 1)
 
     pokargs_by_name = dict((p.name, p) for p in pokargs)
+    # a named argument cannot collide with a positional-only parameter: it
+    # goes to **kwargs, if there is one
+    posarg_names = set(p.name for p in posargs)
     consumed_names = set()
 
     if hide_args:
@@ -937,7 +940,7 @@ def _mask(sig, num_args, hide_args, hide_kwargs,
         named_args = []
 
     for kwarg_name in named_args:
-        if kwarg_name in consumed_names:
+        if kwarg_name in consumed_names and kwarg_name not in posarg_names:
             raise ValueError('Duplicate argument: {0!r}'.format(kwarg_name))
         elif kwarg_name in pokargs_by_name:
             i = pokargs.index(pokargs_by_name[kwarg_name])
